@@ -45,6 +45,14 @@ RULE = ('real files on disk: (channels nc, dtype, sampling-rate text, announced 
         'OnlineReader at every kind of size. A case is non-trivial when the file has >= 1 frame and disagrees with its meta data '
         '(trailing bytes or announced length != frames present); distinct by the whole case description')
 ASSUMPTIONS = [
+    'input forms: for 60 % of the cases the FORM of the call is drawn independently of the value (dtype as str / np.dtype / type '
+    'incl. float32/float64 data; file as Path / str / its .meta as Path or str / meta_file= or ch_file= keyword; constructor vs '
+    'open=False + open() vs context manager; explicit ignore_warnings=False; nc/ns/fs of a meta-less reader as int / float / numpy '
+    'scalars with integer values; rate and duration written with trailing zeros / a bare dot) and compared with the model of the '
+    'value. Excluded: meta_file= given as a str (known finding meta-file-kw-str: AttributeError), a meta-less reader built with '
+    'open=False and entered as a context manager (known finding flat-open-false-context: no _raw attribute), nc given as a float (np.ones '
+    'raises a clear TypeError: unsupported by the API); fractional ns/fs of a meta-less reader are truncated by int() in the code '
+    'and are not generated',
     'the property is demanded for files with at least one complete frame (its own quantifier); sub-frame and empty files are '
     'still run through model and code (ns = 0 / "cannot mmap an empty file") but the oracle does not judge them',
     'known finding incomplete-meta-keys: the OFFLINE Reader on meta data without fileTimeSecs (recording in progress) raises '
@@ -96,7 +104,7 @@ TEMPLATES = {
     'ap277': ('sample3A_376_channels.ap.meta', 'imSampRate', 277, 'x_g0_t0.imec.ap'),
     'acq': ('sampleNP2.4_4shanks_while_acquiring_incomplete.ap.meta', 'imSampRate', 385, 'x_g0_t0.imec0.ap'),
 }
-ITEMSIZE = {'int16': 2, 'int32': 4, 'int8': 1}
+ITEMSIZE = {'int16': 2, 'int32': 4, 'int8': 1, 'float32': 4, 'float64': 8}
 
 
 def _bits(x):
@@ -193,15 +201,54 @@ class Built:
         return self.samples[:rows * self.c['nc']].reshape(rows, self.c['nc'])
 
     def open(self):
+        """Open with the case's call FORM (how the same request is spelled), see `_with_forms`."""
         import spikeglx
         c = self.c
+        f = c.get('forms') or {}
         cls = spikeglx.OnlineReader if c['reader'] == 'on' else spikeglx.Reader
-        kw = dict(sort=False, dtype=c['dtype'])
+        dt = c['dtype']
+        dt = {'str': dt, 'npdtype': np.dtype(dt), 'type': getattr(np, dt)}[f.get('dtype', 'str')]
+        kw = dict(sort=False, dtype=dt)
         if c.get('iw'):
             kw['ignore_warnings'] = True
+        elif f.get('iw_explicit'):
+            kw['ignore_warnings'] = False
         if c['fmt'] == 'flat':
-            kw.update(nc=c['nc'], ns=c['flat_ns'], fs=c['flat_fs'])
-        return cls(self.path, **kw)
+            conv = {'int': int, 'float': float, 'np.int64': np.int64, 'np.int32': np.int32, 'np.uint16': np.uint16,
+                    'np.float64': np.float64}
+            nf = f.get('num', {})
+            kw.update(nc=conv[nf.get('nc', 'int')](c['nc']), ns=conv[nf.get('ns', 'int')](c['flat_ns']),
+                      fs=conv[nf.get('fs', 'int')](c['flat_fs']))
+        meta = self.path.with_suffix('.meta')
+        pf = f.get('path', 'path')
+        if pf == 'path':
+            target = self.path
+        elif pf == 'str':
+            target = str(self.path)
+        elif pf == 'meta':
+            target = meta
+        elif pf == 'meta_str':
+            target = str(meta)
+        elif pf == 'meta_kw':
+            target = self.path
+            kw['meta_file'] = meta
+        elif pf == 'ch_kw':
+            target = self.path
+            kw['ch_file'] = self.path.with_suffix('.ch')
+        else:
+            raise ValueError(pf)
+        of = f.get('open', 'ctor')
+        if of == 'ctor':
+            return cls(target, **kw)
+        if of == 'open_false':
+            sr = cls(target, open=False, **kw)
+            sr.open()
+            return sr
+        if of == 'with':                 # `with Reader(...) as sr:` — the harness closes it (= __exit__)
+            return cls(target, **kw).__enter__()
+        if of == 'with_open_false':
+            return cls(target, open=False, **kw).__enter__()
+        raise ValueError(of)
 
     def grow(self, nbytes, seed):
         extra = np.random.default_rng(seed).integers(1, 255, size=nbytes).astype(np.uint8)
@@ -268,6 +315,48 @@ def _case(tpl, nc, fs, claim, k, r, reader, seed, fmt='bin', dtype='int16', iw=F
     return c
 
 
+def _fs_form(txt, form):
+    """the same number, written differently in the .meta file"""
+    if form == 'plain' or 'e' in txt.lower():
+        return txt
+    if form == 'dot':
+        return txt if '.' in txt else txt + '.'
+    if form == 'dot0':
+        return txt if '.' in txt else txt + '.0'
+    if form == 'zeros':
+        return (txt if '.' in txt else txt + '.') + '000000000000'
+    raise ValueError(form)
+
+
+def _with_forms(c, rng):
+    """Draw the FORM of the call independently of its value: dtype as str / np.dtype / type, the file given as Path / str /
+    through its .meta (Path or str) / with meta_file= or ch_file= keyword, constructor vs open=False + .open() vs context
+    manager, numbers of a meta-less reader as int / float / numpy scalars, the rate and the duration written with trailing
+    zeros / a bare dot in the .meta.  Excluded (see ASSUMPTIONS): meta_file= as str (known finding meta-file-kw-str),
+    nc as a float (np.ones(nc) raises a clear TypeError: unsupported), a meta-less reader built with open=False and then
+    entered as a context manager (known finding flat-open-false-context)."""
+    f = {'dtype': str(rng.choice(['str', 'npdtype', 'type'])),
+         'open': str(rng.choice(['ctor', 'ctor', 'open_false', 'with', 'with_open_false'])),
+         'iw_explicit': bool(rng.random() < 0.3)}
+    if c['fmt'] == 'flat':
+        f['path'] = str(rng.choice(['path', 'str']))
+        if f['open'] == 'with_open_false':     # known finding flat-open-false-context (no _raw attribute): excluded
+            f['open'] = 'open_false'
+        ints = ['int', 'np.int64', 'np.int32', 'np.uint16']
+        f['num'] = {'nc': str(rng.choice(ints)) if c['nc'] < 65536 else 'int',
+                    'ns': str(rng.choice(ints + ['float', 'np.float64'])) if c['flat_ns'] < 65536 else 'int',
+                    'fs': str(rng.choice(ints + ['float', 'np.float64'])) if c['flat_fs'] < 65536 else 'int'}
+    else:
+        f['path'] = str(rng.choice(['path', 'str', 'meta', 'meta_str', 'meta_kw'] + (['ch_kw'] if c['fmt'] == 'cbin' else [])))
+        f['fs_text'] = str(rng.choice(['plain', 'dot', 'dot0', 'zeros']))
+        c['fs'] = _fs_form(c['fs'], f['fs_text'])
+        if c['fts'] is not None and rng.random() < 0.5:
+            c['fts'] = _fs_form(c['fts'], 'zeros')
+            f['fts_text'] = 'zeros'
+    c['forms'] = f
+    return c
+
+
 def _box(ctx, ncs, ks):
     out = []
     seed = 1000
@@ -294,7 +383,7 @@ def _random_cases(ctx, n):
         else:
             tpl = str(rng.choice(['ap3A', 'lf3A', 'ap3B', 'np24', 'np21']))
             nc = 385
-        dtype = str(rng.choice(['int16'] * 8 + ['int32', 'int8']))
+        dtype = str(rng.choice(['int16'] * 8 + ['int32', 'int8', 'float32', 'float64']))
         frame = nc * ITEMSIZE[dtype]
         fs = str(rng.choice(FS_LIST)) if rng.random() < 0.75 else f'{rng.uniform(100, 40000):.6f}'
         sparse = rng.random() < 0.2
@@ -426,6 +515,9 @@ def _cases(ctx):
     cases += _acquiring_cases(ctx, ctx.n(60, 400))
     cases += _cbin_cases(ctx, ctx.n(120, 700))
     cases += _flat_cases(ctx, ctx.n(60, 400))
+    # the form of the call is drawn independently of the value, for 60 % of the cases
+    frng = ctx.subrng(13)
+    cases = [_with_forms(c, frng) if frng.random() < 0.6 else c for c in cases]
     # edge rows of the model's error branches (zero rate; empty file) — never judged by the oracle
     cases.append(_case('nidq', 3, '0', 1, 2, 1, 'off', 7))
     cases.append(_case('nidq', 3, '0', 1, 2, 1, 'on', 8))
@@ -546,7 +638,7 @@ def _tags(c, outcome):
     t = ['reader=' + c['reader'], 'fmt=' + c['fmt'], 'nc=' + ('385' if c['nc'] == 385 else '277' if c['nc'] == 277 else 'small'),
          'r=0' if r == 0 else 'r<half' if 2 * r < frame else 'r=half' if 2 * r == frame else 'r>half',
          'claim=' if c['claim'] == c['k'] else 'claim<' if c['claim'] < c['k'] else 'claim>',
-         'fs-frac' if '.' in c['fs'] and float(c['fs']) != int(float(c['fs'])) else 'fs-int',
+         'fs-frac' if float(c['fs']) != int(float(c['fs'])) else 'fs-int',
          'k=0' if c['k'] == 0 else 'k=1..9' if c['k'] < 10 else 'k=10..999' if c['k'] < 1000 else 'k>=1000',
          'dtype=' + c['dtype'], 'outcome=' + outcome]
     if c['claim'] != int(c['claim']):
@@ -559,6 +651,15 @@ def _tags(c, outcome):
         t.append('meta-without-fileTimeSecs')
     if c.get('grow'):
         t.append('grown')
+    f = c.get('forms')
+    if f:
+        t += ['form:dtype=' + f['dtype'], 'form:path=' + f['path'], 'form:open=' + f['open']]
+        if 'fs_text' in f:
+            t.append('form:fs_text=' + f['fs_text'])
+        for k_, v_ in f.get('num', {}).items():
+            t.append(f'form:{k_}={v_}')
+    else:
+        t.append('form:default')
     if c['fmt'] == 'cbin':
         ch = float(c.get('ch_fs') or c['fs'])
         rel = abs(float(c['fs']) / ch - 1)
@@ -742,6 +843,8 @@ def search(ctx, reasons):
         pass
     fake = _R(); fake.rng = rng; fake.quick = True; fake.n = lambda q, t: q
     cands += _cbin_cases(fake, 40) + _acquiring_cases(fake, 12) + _random_cases(fake, 250)
+    small = _box(ctx, (1, 2), (1, 2))
+    cands += [_with_forms(dict(c), rng) for c in small[::3]] + [_with_forms(c, rng) for c in _cbin_box()[:12]]
     best = None
     for c in cands:
         c = dict(c)
@@ -792,4 +895,36 @@ def known_findings(ctx):
         except Exception as e:   # noqa
             ctx.note(f'known finding: model not run ({e})')
         return got == 'err TypeError'
-    return {'incomplete-meta-keys': demo}
+
+    def demo_meta_kw():
+        """Reader(bin, meta_file=<str>) raises AttributeError ('str' object has no attribute 'exists'); with a Path it opens."""
+        import spikeglx
+        logging.getLogger('ibllib').setLevel(logging.CRITICAL)
+        b = Built(_case('nidq', 3, '30000', 5, 4, 3, 'off', 3))
+        try:
+            try:
+                sr = spikeglx.Reader(b.path, meta_file=str(b.path.with_suffix('.meta')))
+                sr.close()
+                return False
+            except AttributeError:
+                return True
+        finally:
+            b.cleanup()
+
+    def demo_flat_ctx():
+        """Reader(bin, nc=, ns=, fs=, open=False) without a .meta never sets _raw: is_open / `with` raise AttributeError."""
+        import spikeglx
+        c = _case('nidq', 3, '30000', 4, 4, 0, 'off', 4, fmt='flat')
+        c['flat_ns'], c['flat_fs'], c['fts'] = 4, 30000, None
+        b = Built(c)
+        try:
+            sr = spikeglx.Reader(b.path, nc=3, ns=4, fs=30000, open=False)
+            try:
+                with sr:
+                    pass
+                return False
+            except AttributeError:
+                return True
+        finally:
+            b.cleanup()
+    return {'incomplete-meta-keys': demo, 'meta-file-kw-str': demo_meta_kw, 'flat-open-false-context': demo_flat_ctx}
